@@ -356,6 +356,12 @@ def canon_result(op, r, go):
             out["nerr"] = r["nerr"]
         if "wm" in r:
             out["wm"] = r["wm"]
+    elif kind == "jsonbuild":
+        out["tok"] = r.get("tok")
+        out["ok"] = r.get("ok")
+        out["rules"] = r.get("rules")
+        if r.get("tok"):
+            out["text"] = r.get("text")
     elif kind == "inst":
         out["ok"] = r.get("ok")
         if r.get("ok"):
